@@ -29,7 +29,11 @@ pub fn parse_ignore(source: &Path, config: &Config) -> Result<Option<Gitignore>>
         let gifile = source.join(".gitignore");
         info!("Using .gitignore file {:?}", gifile);
         let mut builder = GitignoreBuilder::new(source);
-        builder.add(&gifile);
+        // Only read a regular file; opening e.g. a FIFO of that name
+        // would block forever.
+        if gifile.is_file() {
+            builder.add(&gifile);
+        }
         let ignore = builder.build()?;
         Some(ignore)
     } else {
